@@ -11,6 +11,10 @@ type Tag struct { //nolint:govet
 	Name              TagName
 	Title             string
 	Description       *string
+
+	// fromPath is true for a tag made from the path of an interaction which has
+	// no Tags directive: it is not a declared tag, a Tags directive can't name it.
+	fromPath bool
 }
 
 var _ json.Marshaler = &Tags{}
@@ -31,6 +35,7 @@ func newPathTag(r InteractionID) *Tag {
 		Children:          &Tags{},
 		Title:             title,
 		Name:              tagName(title),
+		fromPath:          true,
 	}
 }
 
